@@ -3141,6 +3141,311 @@ fn stamped(rng: &mut Rng, n: usize, ctr: &mut u32) -> Vec<u8> {
     m
 }
 
+// ---------------------------------------------------------------------------------------------
+// Round-21 scenarios: bursts of tiny messages in one tick, aliasing channel ids, slice counts near usize::MAX / 1200
+// ---------------------------------------------------------------------------------------------
+
+/// C01 / C02 / C03 / C16 "all message counts and sizes": several hundred EMPTY or ONE-BYTE messages submitted in one
+/// tick, so that one small-message packet carries hundreds of messages (the count field of the packet crosses one byte:
+/// 255 / 256 / 257 … 1200 messages per packet), over a network that loses nothing; judged by the prefix / exactly-once
+/// and heal-phase liveness oracles (seeded C01w: a one-byte count says "0 messages" for a packet of 256, the packet is
+/// acknowledged and its messages are gone). Fixed op lists: every delivery round hands over the whole emission history so
+/// far (indices beyond it answer `nohist` on both sides alike), i.e. nothing is ever lost, older datagrams arrive again.
+const BURST_N: usize = 9;
+
+fn burst_ops(case: usize) -> Vec<String> {
+    let c = default_chans();
+    let mut ops: Vec<String> = vec![cfg_line(60_000, &c, &c), "cli 0".into(), "add 100".into(), "setc 0".into()];
+    // (sender, channel, messages, payload length, messages exchanged and acknowledged before the burst)
+    let bursts: Vec<(&str, u8, usize, usize, usize)> = match case {
+        0 => vec![("c0", 2, 400, 1, 0)],
+        1 => vec![("c0", 2, 1000, 0, 0)],
+        2 => vec![("c0", 1, 400, 1, 0)],
+        3 => vec![("s100", 1, 700, 0, 0)],
+        4 => vec![("s100", 2, 300, 1, 100)], // ids >= 64: 4 bytes per message, 256 of them still fit one packet
+        5 => vec![("c0", 0, 600, 1, 0)],
+        6 => vec![("s100", 0, 1300, 0, 0)], // 1200 empty unreliable messages fill one packet
+        7 => vec![("c0", 2, 256, 1, 0), ("s100", 2, 257, 0, 0), ("s100", 1, 255, 1, 0)],
+        _ => vec![("c0", 2, 300, 0, 0), ("c0", 1, 300, 1, 0), ("c0", 0, 300, 1, 0), ("s100", 2, 520, 1, 0), ("s100", 0, 300, 0, 0)],
+    };
+    let body = |tag: usize, i: usize, len: usize| -> Vec<u8> { (0..len).map(|k| ((i + 7 * tag + k) % 251) as u8).collect() };
+    let round = |ops: &mut Vec<String>, dt: u64| {
+        ops.push(format!("upd c0 {}", dt));
+        ops.push(format!("upd srv {}", dt));
+        ops.push("flush c0".into());
+        ops.push("flush s100".into());
+        for k in 0..14 {
+            ops.push(format!("dlv s100 c0 {}", k));
+        }
+        for k in 0..14 {
+            ops.push(format!("dlv c0 s100 {}", k));
+        }
+    };
+    let drain_all = |ops: &mut Vec<String>, list: &[(&str, u8, usize)]| {
+        for (from, ch, n) in list {
+            let to = peer_of(from).unwrap();
+            for _ in 0..n + 1 {
+                ops.push(format!("recv {} {}", to, ch));
+            }
+        }
+    };
+    // warm-up traffic, obtained and acknowledged
+    let warm: Vec<(&str, u8, usize)> = bursts.iter().filter(|b| b.4 > 0).map(|b| (b.0, b.1, b.4)).collect();
+    if !warm.is_empty() {
+        for (from, ch, n) in warm.iter() {
+            for i in 0..*n {
+                ops.push(format!("send {} {} {}", from, ch, hex(&body(100, i, 3))));
+            }
+        }
+        round(&mut ops, 16_000);
+        drain_all(&mut ops, &warm);
+        round(&mut ops, 16_000);
+        round(&mut ops, 16_000);
+    }
+    // the burst: everything in one tick
+    for (tag, (from, ch, n, len, _)) in bursts.iter().enumerate() {
+        for i in 0..*n {
+            ops.push(format!("send {} {} {}", from, ch, hex(&body(tag, i, *len))));
+        }
+    }
+    let all: Vec<(&str, u8, usize)> = bursts.iter().map(|b| (b.0, b.1, b.2)).collect();
+    round(&mut ops, 16_000);
+    drain_all(&mut ops, &all);
+    ops.push("dump c0".into());
+    ops.push("dump s100".into());
+    // a working network, longer than the resend time per round
+    for _ in 0..4 {
+        round(&mut ops, 301_000);
+    }
+    drain_all(&mut ops, &all);
+    ops.push("stat c0".into());
+    ops.push("stat s100".into());
+    ops.push("note healed".into());
+    ops.push("dump c0".into());
+    ops.push("dump s100".into());
+    ops
+}
+
+/// C03 / C11 "obtained on channel c ⇒ submitted on channel c" with channel ids above 31: every delivery kind has two
+/// channels whose ids are congruent modulo 32 / 64 / 128 (unreliable {1, 33}, ordered {2, 34}, unordered {3, 131}, …), in
+/// one direction or both; small, packed and sliced messages with stamped position-dependent payloads; traffic on the high
+/// ids only, on the low ids only, or on both at once; mild network faults, then a lossless phase (seeded C03w: type and
+/// channel id share one header byte, ids ≥ 32 arrive as id mod 32).
+fn script_alias(rng: &mut Rng, tier: Tier, ex: &mut dyn FnMut(&str) -> String) {
+    let layout = |rng: &mut Rng| -> Vec<Chan> {
+        let modulus = rng.pick(&[32u16, 32, 64, 128]);
+        let mut lows: Vec<u8> = (0..8u8).collect();
+        let mut v = vec![];
+        for kind in ["U", "RO", "RU"] {
+            let low = lows.remove(rng.below(lows.len() as u64) as usize);
+            let steps = (255 - low as u16) / modulus;
+            let high = (low as u16 + modulus * rng.range(1, steps as u64) as u16) as u8;
+            let resend_us = if kind == "U" { 0 } else { rng.pick(&[50_000u64, 100_000, 300_000]) };
+            v.push(Chan { id: low, kind, max_mem: 5 * 1024 * 1024, resend_us });
+            v.push(Chan { id: high, kind, max_mem: 5 * 1024 * 1024, resend_us });
+        }
+        for i in (1..v.len()).rev() {
+            let j = rng.below(i as u64 + 1) as usize;
+            v.swap(i, j);
+        }
+        v
+    };
+    let sc = layout(rng);
+    let cc = if rng.chance(1, 2) { sc.clone() } else { layout(rng) };
+    ex(&cfg_line(60_000, &sc, &cc));
+    ex("cli 0");
+    ex("add 100");
+    ex("setc 0");
+    // which of the two ids of a kind carry traffic: 0 = the high ones only, 1 = both, 2 = the low ones only
+    let mode = rng.pick(&[0u8, 0, 1, 1, 2]);
+    let carries = |c: &Chan, all: &[Chan]| -> bool {
+        let high = all.iter().any(|o| o.kind == c.kind && o.id < c.id);
+        mode == 1 || (mode == 0) == high
+    };
+    let ticks = if tier == Tier::Quick { rng.range(2, 6) } else { rng.range(3, 12) };
+    let dt = rng.pick(&[16_000u64, 100_000, 301_000]);
+    let loss = rng.pick(&[0u64, 0, 15]);
+    let dup = rng.pick(&[0u64, 0, 20]);
+    let delay = rng.pick(&[0u64, 0, 30]);
+    let shuffle = rng.chance(1, 2);
+    let sizes: &[usize] = &[0, 1, 5, 5, 40, 300, 1199, 1200, 1201, 2400, 2401, 3000];
+    let mut net = Net::new();
+    let mut ctr = 0u32;
+    let mut sent_bytes = 0u64;
+    for tick in 0..ticks {
+        for (from, chans) in [("c0", &cc), ("s100", &sc)] {
+            for _ in 0..rng.below(5) {
+                let c = rng.pick(chans);
+                if !carries(&c, chans) {
+                    continue;
+                }
+                let n = rng.pick(sizes);
+                sent_bytes += n as u64;
+                let m = stamped(rng, n, &mut ctr);
+                ex(&format!("send {} {} {}", from, c.id, hex(&m)));
+            }
+        }
+        ex(&format!("upd c0 {}", dt));
+        ex(&format!("upd srv {}", dt));
+        net.flush(rng, ex, "c0", "s100", tick, loss, dup, delay);
+        net.flush(rng, ex, "s100", "c0", tick, loss, dup, delay);
+        net.deliver_due(rng, ex, tick, shuffle);
+        for c in cc.iter() {
+            drain(ex, "s100", c.id, rng.range(1, 6) as usize);
+        }
+        for c in sc.iter() {
+            drain(ex, "c0", c.id, rng.range(1, 6) as usize);
+        }
+        if rng.chance(1, 3) {
+            ex("dump c0");
+            ex("dump s100");
+        }
+    }
+    // lossless phase
+    let need = 2 * sent_bytes / 60_000 + 5;
+    let mut t = ticks + 10;
+    net.deliver_due(rng, ex, t, false);
+    for _ in 0..need {
+        t += 1;
+        ex("upd c0 301000");
+        ex("upd srv 301000");
+        net.flush(rng, ex, "c0", "s100", t, 0, 0, 0);
+        net.flush(rng, ex, "s100", "c0", t, 0, 0, 0);
+        net.deliver_due(rng, ex, t, false);
+        for c in cc.iter() {
+            drain(ex, "s100", c.id, 10_000);
+        }
+        for c in sc.iter() {
+            drain(ex, "c0", c.id, 10_000);
+        }
+    }
+    ex("stat c0");
+    ex("stat s100");
+    ex("note healed");
+    ex("dump c0");
+    ex("dump s100");
+}
+
+/// C06 "every field-boundary value of … slice count … injected at any point of a live session (fresh, mid-reassembly, with
+/// messages buffered, after drains)": bounded sweep of ONE hostile slice packet whose announced slice count lies around the
+/// places where `count * 1200` (+ the bytes the channel already accounts) leaves a machine word — usize::MAX / 1200 ± a few
+/// and ± what a 40 000-byte channel can account, half of it, 2^32-sized totals, 2^53, 2^60, 2^62 − 1 — next to the parser's
+/// cap (10^6) and the budget boundary (33 / 34 slices, 13 / 14 next to a partial reassembly of 20); target = server connection or client; reliable ordered / unordered / unreliable
+/// channel; receive channel fresh, holding an out-of-order or undrained small message, several undrained messages, a partial
+/// reassembly, or drained. A well-behaved pair on the same server keeps working (seeded C06w: without the cap the budget test
+/// `accounted + count * 1200` overflows as soon as ≥ 16 bytes are accounted).
+const SLICECOUNT_W: u64 = u64::MAX / 1200; // 15 372 286 728 091 293: the largest count whose total size fits 64 bits
+const SLICECOUNTS: [u64; 26] = [
+    SLICECOUNT_W,
+    SLICECOUNT_W - 1,
+    SLICECOUNT_W - 2,
+    SLICECOUNT_W - 19,
+    SLICECOUNT_W - 20,
+    SLICECOUNT_W - 33,
+    SLICECOUNT_W - 34,
+    SLICECOUNT_W - 5000,
+    SLICECOUNT_W + 1,
+    SLICECOUNT_W + 4000,
+    SLICECOUNT_W / 2,
+    SLICECOUNT_W / 2 + 1,
+    SLICECOUNT_W / 2 - 1,
+    u32::MAX as u64 / 1200,
+    u32::MAX as u64 / 1200 + 1,
+    1 << 32,
+    1 << 53,
+    (1 << 53) + 1,
+    1 << 60,
+    (1 << 62) - 1,
+    1_000_000,
+    1_000_001,
+    33,
+    34,
+    13,
+    14,
+];
+const SLICECOUNT_N: usize = 2 * 3 * 5 * 26 * 2;
+
+fn slicecount_ops(mut case: usize) -> Vec<String> {
+    let mut take = |n: usize| -> usize {
+        let v = case % n;
+        case /= n;
+        v
+    };
+    let n = SLICECOUNTS[take(26)];
+    let state = take(5);
+    let (ty, ch) = [(2u8, 2u8), (2, 1), (3, 0)][take(3)];
+    let last = take(2) == 1;
+    let to = ["s100", "c0"][take(2)];
+    // (small budgets: the list-based model materialises every reassembly buffer it accepts)
+    let mut chans = default_chans();
+    for c in chans.iter_mut() {
+        c.max_mem = 40_000;
+    }
+    let mut ops: Vec<String> = vec![cfg_line(60_000, &chans, &chans)];
+    for h in 0..2 {
+        ops.push(format!("cli {}", h));
+        ops.push(format!("add {}", 100 + h));
+        ops.push(format!("setc {}", h));
+    }
+    // small-message packet (type 0 with ids from `first`, or type 1)
+    let small = |seq: u64, first: u64, msgs: &[Vec<u8>]| -> String {
+        let mut b = vec![if ty == 2 { 0u8 } else { 1 }];
+        b.extend(varint(seq));
+        b.push(ch);
+        b.extend((msgs.len() as u16).to_be_bytes());
+        for (k, m) in msgs.iter().enumerate() {
+            if ty == 2 {
+                b.extend(varint(first + k as u64));
+            }
+            b.extend(varint(m.len() as u64));
+            b.extend(m);
+        }
+        hex(&b)
+    };
+    match state {
+        1 => {
+            // one small message waits: for its predecessor (ordered), for the application (unordered, unreliable)
+            ops.push(format!("raw {} {}", to, small(1, 1, &[pat(32, 1)])));
+            if ch == 2 {
+                ops.push(format!("recv {} {}", to, ch));
+            }
+        }
+        2 => ops.push(format!("raw {} {}", to, small(1, 0, &[pat(500, 1), pat(500, 2), pat(500, 3)]))),
+        3 => ops.push(format!("raw {} {}", to, slice_pkt(ty, 1, ch, 0, 0, 20, &pat(1200, 4)))),
+        4 => {
+            ops.push(format!("raw {} {}", to, small(1, 0, &[pat(32, 5)])));
+            ops.push(format!("recv {} {}", to, ch));
+        }
+        _ => {}
+    }
+    ops.push(format!("dump {}", to));
+    let (idx, payload) = if last { (n - 1, pat(10, 6)) } else { (0, pat(1200, 7)) };
+    ops.push(format!("raw {} {}", to, slice_pkt(ty, 9, ch, 5, idx, n, &payload)));
+    ops.push(format!("stat {}", to));
+    ops.push(format!("dump {}", to));
+    ops.push(format!("recv {} {}", to, ch));
+    ops.push(format!("upd {} 16000", if to == "c0" { "c0" } else { "srv" }));
+    ops.push(format!("flush {}", to));
+    ops.push(format!("stat {}", to));
+    // the endpoint and the other connection keep working
+    ops.push(format!("send c1 2 {}", hex(&pat(24, 8))));
+    ops.push(format!("send s101 2 {}", hex(&pat(100, 9))));
+    ops.push("upd c1 16000".into());
+    ops.push("upd srv 16000".into());
+    ops.push("flush c1".into());
+    ops.push("flush s101".into());
+    ops.push("dlv s101 c1 0".into());
+    ops.push("dlv c1 s101 0".into());
+    ops.push("recv s101 2".into());
+    ops.push("recv c1 2".into());
+    ops.push("stat c1".into());
+    ops.push("stat s101".into());
+    ops.push("note healed".into());
+    ops.push("ids".into());
+    ops.push(format!("avail {} {}", to, ch));
+    ops
+}
+
 pub fn profiles() -> Vec<Profile> {
     vec![Profile {
         name: "rn-regress",
@@ -3322,6 +3627,37 @@ pub fn profiles() -> Vec<Profile> {
         nontrivial: |_| true,
         keep: |_| 4,
         fixed: Some(|c| volume_ops(4 + c)),
+    },
+    Profile {
+        name: "rn-volume-burst",
+        props: &["C01", "C02", "C03", "C08", "C16"],
+        cases: |_| BURST_N,
+        new_world,
+        script: script_none,
+        nontrivial: |_| true,
+        // the liveness verdict rests on the delivery rounds of the op list: nothing of it may be shrunk away
+        keep: |ops| ops.len(),
+        fixed: Some(burst_ops),
+    },
+    Profile {
+        name: "rn-pair-alias",
+        props: &["C03", "C11"],
+        cases: |t| if t == Tier::Quick { 60 } else { 1500 },
+        new_world,
+        script: script_alias,
+        nontrivial: nontrivial_pair,
+        keep: keep_cfg,
+        fixed: None,
+    },
+    Profile {
+        name: "rn-hostile-slicecount",
+        props: &["C06", "C09"],
+        cases: |_| SLICECOUNT_N,
+        new_world,
+        script: script_none,
+        nontrivial: |_| true,
+        keep: |_| 7,
+        fixed: Some(slicecount_ops),
     },
     Profile {
         name: "rn-sweep-triples",
@@ -5519,8 +5855,8 @@ pub fn oracles() -> Vec<Oracle> {
         Oracle { prop: "C02", name: "unordered-once", engines: &["rn-pair", "rn-multi", "rn-timing", "rn-long", "rn-acks", "rn-tight", "rn-regress", "rn-volume"], check: oracle_c02 },
         Oracle { prop: "C02", name: "unordered-no-head-of-line", engines: &["rn-pair", "rn-multi", "rn-timing", "rn-long", "rn-acks", "rn-tight", "rn-regress", "rn-volume"], check: oracle_hol_unordered },
         Oracle { prop: "C11", name: "no-head-of-line", engines: &["rn-pair", "rn-multi", "rn-volume-mixed"], check: oracle_hol_any },
-        Oracle { prop: "C03", name: "integrity", engines: &["rn-pair", "rn-unrel"], check: oracle_c03 },
-        Oracle { prop: "C03", name: "integrity-delivery-bounded", engines: &["rn-pair", "rn-unrel", "rn-multi", "rn-bigmsg"], check: oracle_integrity },
+        Oracle { prop: "C03", name: "integrity", engines: &["rn-pair", "rn-unrel", "rn-volume-burst"], check: oracle_c03 },
+        Oracle { prop: "C03", name: "integrity-delivery-bounded", engines: &["rn-pair", "rn-unrel", "rn-multi", "rn-bigmsg", "rn-volume-burst"], check: oracle_integrity },
         Oracle { prop: "C11", name: "only-what-was-sent-to-it", engines: &["rn-multi", "rn-hostile", "rn-pair", "rn-unrel", "rn-volume-mixed"], check: oracle_integrity },
         Oracle { prop: "C11", name: "disconnects-have-a-cause", engines: &["rn-multi", "rn-hostile", "rn-pair", "rn-unrel", "rn-volume-mixed"], check: oracle_disconnect_justified },
         Oracle { prop: "C06", name: "disconnects-have-a-cause", engines: &["rn-hostile", "rn-pair", "rn-tight", "rn-acks"], check: oracle_disconnect_justified },
@@ -5532,7 +5868,7 @@ pub fn oracles() -> Vec<Oracle> {
         Oracle { prop: "C01", name: "bulk", engines: &["rn-huge"], check: oracle_bulk },
         Oracle { prop: "C16", name: "roundtrip", engines: &["rn-wire"], check: oracle_c16 },
         Oracle { prop: "C08", name: "ack-encoding-roundtrip", engines: &["rn-wire"], check: oracle_c16_acks },
-        Oracle { prop: "C16", name: "emitted-roundtrip", engines: &["rn-volume-seq", "rn-acks", "rn-long"], check: oracle_c16_emitted },
+        Oracle { prop: "C16", name: "emitted-roundtrip", engines: &["rn-volume-seq", "rn-volume-burst", "rn-acks", "rn-long"], check: oracle_c16_emitted },
         Oracle { prop: "C16", name: "acks-are-the-set", engines: &["rn-sweep-acks"], check: oracle_sweep_acks },
         Oracle { prop: "C16", name: "ack-is-the-recorded-set", engines: &["rn-long", "rn-acks", "rn-volume-seq"], check: oracle_ack_is_recorded_set },
         Oracle { prop: "C08", name: "ack-is-the-recorded-set", engines: &["rn-pair", "rn-long", "rn-acks", "rn-timing", "rn-multi-ackgap", "rn-volume-mixed", "rn-volume-acks", "rn-timing-overflow"], check: oracle_ack_is_recorded_set },
